@@ -22,6 +22,32 @@ def _tt(E, N, R, M=None, zero=False):
     return E.tt.TT(cores)
 
 
+def _snap(E, objs):
+    out = []
+    for o in objs:
+        if o is None:
+            continue
+        vals = [c.clone() for c in o.cores] if E.mode == 'real' else None
+        out.append((o, o.cores, list(o.cores), [int(r) for r in o.R], list(o.N), vals))
+    return out
+
+
+def _operands_intact(E, snaps, y):
+    """operands and the initial guess keep their core list, core tensor objects and metadata, and the result has its own list
+    (real replay: the core values are compared as well)"""
+    ok = True
+    own = True
+    for o, lst, tensors, R, N, vals in snaps:
+        ok = ok and o.cores is lst and len(lst) == len(tensors) and all(a is b for a, b in zip(lst, tensors))
+        ok = ok and [int(r) for r in o.R] == R and list(o.N) == N
+        if vals is not None and ok:
+            ok = ok and all(a.shape == b.shape and bool((a == b).all()) for a, b in zip(lst, vals))
+        if hasattr(y, 'cores'):
+            own = own and y.cores is not lst
+    E.true('operands_intact', ok)
+    E.true('result_own_core_list', own)
+
+
 def _wellformed(E, y, N, M=None):
     tt = E.tt
     ok = isinstance(y, tt.TT)
@@ -76,30 +102,40 @@ def _product_structure(E, s):
             x = _tt(E, N, Rx, zero=s.get('zero') == 'second')
             if s.get('guess'):
                 kw['initial'] = _tt(E, M, s['guess'])
+            sn = _snap(E, [A, x, kw.get('initial')])
             y = A.fast_matvec(x, **kw)
             _wellformed(E, y, M)
+            _operands_intact(E, sn, y)
         elif op == 'dmrg_hadamard':
             x = _tt(E, N, RA, zero=s.get('zero') == 'first')
             z = _tt(E, N, Rx, zero=s.get('zero') == 'second')
             if s.get('guess'):
                 kw['z0'] = _tt(E, N, s['guess'])
+            if s.get('guess_is') == 'operand':
+                kw['z0'] = x              # the first operand doubles as the initial guess
+            sn = _snap(E, [x, z, kw.get('z0')])
             y = tt.dmrg_hadamard(x, z, **kw)
             _wellformed(E, y, N)
+            _operands_intact(E, sn, y)
         elif op == 'amen_mv':
             A = _tt(E, N, RA, M, zero=s.get('zero') == 'first')
             x = _tt(E, N, Rx, zero=s.get('zero') == 'second')
             if s.get('guess'):
                 kw['x0'] = _tt(E, M, s['guess'])
+            sn = _snap(E, [A, x, kw.get('x0')])
             y = tt.amen_mv(A, x, **kw)
             _wellformed(E, y, M)
+            _operands_intact(E, sn, y)
         elif op == 'amen_mm':
             K = s['K']
             A = _tt(E, K, RA, M, zero=s.get('zero') == 'first')
             B = _tt(E, N, Rx, K, zero=s.get('zero') == 'second')
             if s.get('guess'):
                 kw['X0'] = _tt(E, N, s['guess'], M)
+            sn = _snap(E, [A, B, kw.get('X0')])
             y = tt.amen_mm(A, B, **kw)
             _wellformed(E, y, N, M)
+            _operands_intact(E, sn, y)
         else:
             raise ValueError(op)
     finally:
@@ -175,8 +211,12 @@ def _solve_structure(E, s):
             b = _tt(E, N, s['Rb'])
             if s.get('guess'):
                 kw['x0'] = _tt(E, N, s['guess'])
+            if s.get('guess_is') == 'operand':
+                kw['x0'] = b              # x0 = b (as in the repository's examples)
+            sn = _snap(E, [A, b, kw.get('x0')])
             y = tt.solvers.amen_solve(A, b, verbose=False, **kw)
             _wellformed(E, y, N)
+            _operands_intact(E, sn, y)
         elif op in ('divide', 'rdivide', 'elementwise_divide'):
             x = _tt(E, N, s['RA'])
             if E.mode == 'real':
@@ -184,15 +224,19 @@ def _solve_structure(E, s):
                 yv = z * z + tt.ones(N, dtype=tn.float64)         # entries bounded away from zero
             else:
                 yv = _tt(E, N, s['Rb'])
+            if op == 'elementwise_divide' and s.get('guess'):
+                kw['starting_tensor'] = _tt(E, N, s['guess'])
+            if op == 'elementwise_divide' and s.get('guess_is') == 'operand':
+                kw['starting_tensor'] = x
+            sn = _snap(E, [x, yv, kw.get('starting_tensor')])
             if op == 'divide':
                 y = x / yv
             elif op == 'rdivide':
                 y = 2.5 / yv
             else:
-                if s.get('guess'):
-                    kw['starting_tensor'] = _tt(E, N, s['guess'])
                 y = tt.elementwise_divide(x, yv, **kw)
             _wellformed(E, y, N)
+            _operands_intact(E, sn, y)
         else:
             raise ValueError(op)
     finally:
